@@ -34,7 +34,7 @@ Print Assumptions C12_deterministic.
        parse_bytes il id (print_full l ds1 ++ c) = Err pos k defs ->
        prefix (elaborate_full l ds1) defs /\ length (print_full l ds1) <= offset pos.
 
-   PROVED (below): for the source class of Dbc/Printer.v (VERSION, BS_, BU_, BO_/SG_, unknown lines;
+   PROVED (below): for the source class of Dbc/Printer.v (the 12 kinds listed in Properties/C04.v;
    plain layout) and every continuation [c] that is empty or still begins with an identifier other
    than SG_ (which would continue a preceding BO_) followed by an ASCII non-identifier character (the
    first token of the corrupted definition is scannable). Without that side condition the statement is false of the code by design of the one-token lookahead: an
